@@ -732,6 +732,15 @@ impl Regex {
     }
 }
 
+#[cfg(feature = "verif")]
+impl Regex {
+    /// Verification hook: access the compiled program.
+    #[doc(hidden)]
+    pub fn verif_compiled(&self) -> &CompiledRegex {
+        &self.cr
+    }
+}
+
 impl FromStr for Regex {
     type Err = Error;
 
